@@ -422,7 +422,7 @@ impl Prop for C12EngineDriven {
 
 // ------------------------------------------------------------------------------ C16
 
-pub const C16_RULE: &str = "reference-tracked games of up to 420 operations through ChessMove::apply/undo from set-up and reachable seeds (seed clocks 0..39), with a quiet-move-biased policy producing capture-free, pawn-move-free stretches up to the 150 plies a legal game allows, interleaved with pawn moves, captures, en passant, castling and promotions, and undo segments; after every apply and undo halfmove_clock() must equal the reference plies-since-capture-or-pawn-move and fullmove_clock() must equal 1 + plies made (compared as u64), no call may panic (overflow checks are on); evaluate::game_ending on every non-terminal node (no repetition registered) must be Draw iff the reference clock >= 100. Non-trivial = game has a quiet stretch >= 20 with a pawn move ending it, or crosses ply 255/256, or reaches clock >= 50; distinct = hash of the op sequence.";
+pub const C16_RULE: &str = "reference-tracked games of up to 420 operations through ChessMove::apply/undo from set-up and reachable seeds (seed clocks 0..39), with a quiet-move-biased policy producing capture-free, pawn-move-free stretches up to the 150 plies a legal game allows, interleaved with pawn moves, captures, en passant, castling and promotions, and undo segments; after every apply and undo halfmove_clock() must equal the reference plies-since-capture-or-pawn-move and fullmove_clock() must equal 1 + plies made (compared as u64), no call may panic (overflow checks are on); evaluate::game_ending on every non-terminal node (no repetition registered) must be Draw iff the reference clock >= 100. Game API: games played by coordinate pairs through Game (seed clocks 0..89): Game::fullmove_clock() and the board's half-move clock against the reference after every move, check_game_over_for_current_turn() Draw iff the clock has reached 100 (repetition-free prefix). Non-trivial = game has a quiet stretch >= 20 with a pawn move ending it, or crosses ply 255/256, or reaches clock >= 50; distinct = hash of the op sequence.";
 
 history_prop!(
     C16Games,
